@@ -3,6 +3,7 @@ package mergep
 import (
 	"context"
 	"fmt"
+	"sort"
 	"time"
 
 	"github.com/PowerDNS/lmdb-go/lmdb"
@@ -26,10 +27,13 @@ type sweepScn struct {
 	CutoffNS int64   `json:"retention_load_cutoff_ns"`
 	DelayMS  int     `json:"delay_ms"` // artificial delay between the sweep and the load
 	Format   uint32  `json:"format"`   // snapshot format version of the remote snapshot (1: deletions are empty values)
+	// SnapAgePct: the remote snapshot was taken this many percent of the retention ago (the last snapshot of an idle
+	// or decommissioned instance); it carries only markers that existed then
+	SnapAgePct int `json:"snapshot_age_pct_of_retention,omitempty"`
 }
 
 type c04Params struct {
-	Hist   *Hist     `json:"hist,omitempty"`
+	Hist   *Hist `json:"hist,omitempty"`
 	Config *struct {
 		Seed  uint64 `json:"seed"`
 		Count int    `json:"count"`
@@ -48,7 +52,7 @@ func C04() *runner.Property {
 		ID: "C04", Level: "exploration",
 		Rule: driveRule + "with a delete-heavy mix (40-60% deletes). Step oracle per merged deletion marker (k,T): the key is invisible afterwards unless a version with a higher timestamp (or the consistent tie winner) is stored, an older live version arriving later never brings it back; every uploaded snapshot equals the LMDB's logical content including all deletion markers. " +
 			"config: on the real config.Sweeper methods, for retention_days in {0,1e-6,1e-3,0.1,0.5,1,1.03,370,1e5} x retention_load_cutoff_duration in {-1h,-1ns,0,1ns,1%,74.9%,75%,75.1%,100%,1000% of the retention,1h,24h} and random pairs: RetentionDurationMinusCutoff() <= RetentionDuration(), hence for all t_sweep <= t_load: t_load - RDMC >= t_sweep - RD. " +
-			"sweep: end to end, a native instance holds markers on a grid around now-retention, one real sweeper pass runs, then LoadOnce merges another instance's snapshot that still carries all those markers (also after an artificial delay): no marker older than the sweep cutoff exists afterwards for a key the instance had no entry for, markers much younger than the cutoff are added. " +
+			"sweep: end to end, a native instance holds markers on a grid around now-retention, one real sweeper pass runs, then LoadOnce merges another instance's snapshot that still carries all those markers (also after an artificial delay, also a snapshot taken 2% or 50% of the retention ago, also markers for keys of which the instance holds an older live version - those must be deleted whatever their age): no marker older than the sweep cutoff exists afterwards for a key the instance had no entry for, markers much younger than the cutoff are added. " +
 			"Non-trivial = a marker met an older live version (histories), distinct config pair, or markers on both sides of both cutoffs (sweep).",
 		Assumptions: []string{"clock reads inside sweep/LoadOnce are bracketed; markers inside the brackets are not judged", "retention model = retention_days x 24h, tolerance 1 s + float32 rounding"},
 		BatchSize:   10, CaseTimeout: 180e9,
@@ -88,6 +92,9 @@ func C04() *runner.Property {
 						}
 						cs = append(cs, runner.MkCase("sweep", fmt.Sprintf("rd%v-co%v-d%d", rd, co, d), c04Params{Sweep: &sweepScn{Seed: r.U64(), RetDays: rd, CutoffNS: int64(co), DelayMS: d, Format: 3}}))
 						if d == 0 && (co == 0 || co == R/100) {
+							for _, age := range []int{2, 50} {
+								cs = append(cs, runner.MkCase("sweep", fmt.Sprintf("rd%v-co%v-d%d-oldsnap%d", rd, co, d, age), c04Params{Sweep: &sweepScn{Seed: r.U64(), RetDays: rd, CutoffNS: int64(co), DelayMS: d, Format: 3, SnapAgePct: age}}))
+							}
 							for _, f := range []uint32{1, 2} {
 								cs = append(cs, runner.MkCase("sweep", fmt.Sprintf("rd%v-co%v-d%d-format%d", rd, co, d, f), c04Params{Sweep: &sweepScn{Seed: r.U64(), RetDays: rd, CutoffNS: int64(co), DelayMS: d, Format: f}}))
 							}
@@ -185,7 +192,25 @@ func runSweep(sc sweepScn, env *runner.Env, res *runner.Result) {
 		local bool // A holds the marker itself before the sweep
 	}
 	var marks []mk
+	snapTime := start.Add(-R * time.Duration(sc.SnapAgePct) / 100)
+	type ol struct {
+		key      string
+		liveTS   uint64
+		markerTS uint64
+	}
+	var olds []ol // keys for which A holds an OLDER LIVE version and the remote snapshot a marker (stale or not)
 	for i, off := range offsets {
+		{
+			t := start.Add(-R + off)
+			if off < 0 {
+				t = t.Add(-tol)
+			} else {
+				t = t.Add(tol)
+			}
+			if !t.After(snapTime) {
+				olds = append(olds, ol{fmt.Sprintf("o-%02d", i), uint64(t.Add(-time.Hour).UnixNano()), uint64(t.UnixNano())})
+			}
+		}
 		for j := 0; j < 3; j++ {
 			// negative off = older than the cutoff
 			t := start.Add(-R + off)
@@ -193,6 +218,9 @@ func runSweep(sc sweepScn, env *runner.Env, res *runner.Result) {
 				t = t.Add(-tol)
 			} else {
 				t = t.Add(tol)
+			}
+			if t.After(snapTime) {
+				continue // the snapshot cannot carry a marker younger than itself
 			}
 			marks = append(marks, mk{fmt.Sprintf("m-%02d-%d", i, j), uint64(t.UnixNano()), j != 2})
 		}
@@ -208,6 +236,11 @@ func runSweep(sc sweepScn, env *runner.Env, res *runner.Result) {
 				}
 			}
 		}
+		for _, o := range olds {
+			if err := inst.NativePut(txn, "d", []byte(o.key), o.liveTS, false, []byte("older-live")); err != nil {
+				return err
+			}
+		}
 		return nil
 	})
 	if err != nil {
@@ -215,9 +248,21 @@ func runSweep(sc sweepScn, env *runner.Env, res *runner.Result) {
 		return
 	}
 	// the remote snapshot still carries every marker
-	rs := &wire.Snap{FormatVersion: sc.Format, CompatVersion: 1, Meta: wire.Meta{DatabaseName: db, InstanceID: "r", GenerationID: "GX", TimestampNano: uint64(start.UnixNano())}}
+	rs := &wire.Snap{FormatVersion: sc.Format, CompatVersion: 1, Meta: wire.Meta{DatabaseName: db, InstanceID: "r", GenerationID: "GX", TimestampNano: uint64(snapTime.UnixNano())}}
 	d := wire.DBI{Name: "d"}
+	type ent struct {
+		key string
+		ts  uint64
+	}
+	var ents []ent
 	for _, m := range marks {
+		ents = append(ents, ent{m.key, m.ts})
+	}
+	for _, o := range olds {
+		ents = append(ents, ent{o.key, o.markerTS})
+	}
+	sort.Slice(ents, func(i, j int) bool { return ents[i].key < ents[j].key })
+	for _, m := range ents {
 		kv := wire.KV{Key: []byte(m.key), TS: m.ts, Flags: 1}
 		if sc.Format < 2 {
 			kv.Flags = 0 // version 1: a deletion is an entry with an empty value
@@ -235,7 +280,7 @@ func runSweep(sc sweepScn, env *runner.Env, res *runner.Result) {
 	if sc.DelayMS > 0 {
 		time.Sleep(time.Duration(sc.DelayMS) * time.Millisecond)
 	}
-	if _, _, err := a.LoadSnap(context.Background(), rs, "r", time.Now(), 0); err != nil {
+	if _, _, err := a.LoadSnap(context.Background(), rs, "r", snapTime, 0); err != nil {
 		res.Violate("loadonce-error", err.Error(), map[string]any{"scenario": sc})
 		return
 	}
@@ -263,6 +308,14 @@ func runSweep(sc sweepScn, env *runner.Env, res *runner.Result) {
 				res.Violate("young-marker-not-propagated", fmt.Sprintf("marker %s (age %v, retention %v) was not added by the merge", m.key, l1.Sub(time.Unix(0, int64(m.ts))), R), wit)
 			}
 		}
+	}
+	// a marker - stale or not - is newer than the older live version the instance still holds: it must win
+	for _, o := range olds {
+		v, has := final["d"][o.key]
+		if has && !v.Del {
+			res.Violate("marker-did-not-delete-older-live-version", fmt.Sprintf("the remote snapshot carries a deletion of %s at %v; the instance held a live version one hour older; after the merge the key is still live %v (marker age %v, retention %v)", o.key, time.Unix(0, int64(o.markerTS)).UTC(), v, l1.Sub(time.Unix(0, int64(o.markerTS))), R), wit)
+		}
+		res.Count("markers_meeting_older_live_version", 1)
 	}
 	if v, ok := final["d"]["live"]; !ok || v.Del {
 		res.Violate("live-entry-lost", "the live entry disappeared", wit)
